@@ -70,7 +70,9 @@ def m_item(I, ctx, callee, args, crate):
     meth = strip_generics(callee).split("::")[-1]
     if meth == "as_slice":
         return Opaque("rawkey", (_nskey(_ns(I, ctx, args[0])),))
-    if meth == "query": raise Unsupported("Item::query (raw cross-contract query) needs an environment model")
+    if meth == "query":
+        if ctx.env is None or not hasattr(ctx.env, "raw_query"): raise Unsupported("Item::query (raw cross-contract query) needs an environment model")
+        return ctx.env.raw_query(I, ctx, _nskey(_ns(I, ctx, args[0])), I.deref(ctx, args[2]), None)
     st = store_of(ctx, _ns(I, ctx, args[0]), "item")
     if not isinstance(st, ItemStore): raise Unsupported(f"namespace {st.ns} is not an Item")
     if meth == "load":
@@ -110,7 +112,9 @@ def _conv(I, ctx, e, callee, crate):
 def m_map(I, ctx, callee, args, crate):
     meth = strip_generics(callee).split("::")[-1]
     ns = _nskey(_ns(I, ctx, args[0]))
-    if meth == "query": raise Unsupported("Map::query (raw cross-contract query) needs an environment model")
+    if meth == "query":
+        if ctx.env is None or not hasattr(ctx.env, "raw_query"): raise Unsupported("Map::query (raw cross-contract query) needs an environment model")
+        return ctx.env.raw_query(I, ctx, ns, I.deref(ctx, args[2]), norm_key(I, ctx, args[3]))
     if meth == "namespace_bytes": return VecV(list(ns.encode()))
     if meth == "key":
         return Opaque("path", (ns, norm_key(I, ctx, args[1])))
